@@ -23,6 +23,15 @@ CHECKS = {
              "cancel-store / Parallelise histories are validated by trace specifications.",
         note="Trusted: TLC, wall-clock scripting with 25 ms spacing, a 4 ms (+ measured scheduling latency) margin inside which either order of deadline and completion is accepted.",
         technique="TLA+ specs + TLC exhaustive (safety, deadlock, liveness); behaviour replay; TLC trace validation with inferred silent steps"),
+    "C14": dict(
+        category="model_checking", design_ref="DESIGN.md 5/C14",
+        text="Retry.tla models the retry loop as coded (attempt / decide / select between delay and context); TLC checks bounded attempts, no attempt after "
+             "success, non-retriable error or done context, nil iff some success and the final error kind for every outcome script of <=4 attempts and every "
+             "cancellation instant; all 6480 scenarios are run through the real RetryIf/RetryOnError. BackoffPolicy.tla states which order relation the wait must "
+             "satisfy for which policy / Retry-After situation; TLC enumerates the 14400 configuration classes, the harness calls the real Apply and TLC validates "
+             "every observation (plus random attempt streams up to 2^31-1 and the real retrying client against a loopback server).",
+        note="Trusted: TLC, math/big projection of waits to order relations, 2 s tolerance on HTTP dates; attempts=0 (retry until success) is outside the statement.",
+        technique="TLA+ specs + TLC exhaustive; exhaustive scenario replay; TLC trace validation of recorded Apply results"),
     "C19": dict(
         category="model_checking", design_ref="DESIGN.md 5/C19",
         text="TLC checks exhaustively (<=4 pages x <=2 items, <=12 calls, static and stream) that the cursor algorithm as coded "
